@@ -154,6 +154,8 @@ PROPS["C04"] = {
         H("verif_c04::proofs::hostile_resource_pack_response", tier="thorough", desc="ResourcePackResponse decoder on arbitrary bytes", bounds="10 symbolic bytes", timeout_s=1200, mem_gb=12),
         H("verif_c04::proofs::hostile_string_and_bytes", desc="read_string/read_bytes on arbitrary bytes: result bounded by input, allocation bounded", bounds="10 symbolic bytes", timeout_s=1200, mem_gb=12),
         H("verif_c04::proofs::negative_length_is_refused", desc="every negative length prefix is IllegalPacketLength, nothing consumed beyond it", bounds="all negative i32", timeout_s=1200, mem_gb=12),
+        H("verif_c04::proofs::negative_length_literals", desc="length prefixes -1 and i32::MIN: IllegalPacketLength, no allocation, no panic", bounds="2 literal prefixes", timeout_s=900, mem_gb=12, symbolic=False),
+        H("verif_c04::proofs::huge_length_is_not_preallocated", desc="length prefix 2^31-1 on a 10-byte input: EOF error, no allocation above 64 KiB requested", bounds="1 literal prefix", timeout_s=900, mem_gb=12, symbolic=False, no_native_replay="the size of an allocation request is not observable in a native run (calloc of 2 GiB succeeds lazily)"),
         H("verif_c04::proofs::hostile_primitives", desc="varint/varlong/bool/uuid readers on arbitrary bytes", bounds="18 symbolic bytes", timeout_s=1200, mem_gb=12),
         H("verif_c04::proofs::frame_length_gate", pkg="passage-protocol", desc="receive_packet: refused iff length<=0 or >max, before the body is read", bounds="12 symbolic bytes, any i32 maximum", timeout_s=1800, mem_gb=16, kani_args=("--no-assertion-reach-checks",)),
         H("verif_c04::proofs::eof_anywhere_is_an_error", pkg="passage-protocol", tier="thorough", desc="truncated frame at any offset: receive_packet returns (no hang/panic)", bounds="frame <= 64, 0..11 bytes sent", timeout_s=1800, mem_gb=16, kani_args=FS),
@@ -202,3 +204,20 @@ NOT_APPLICABLE.pop("C09", None)
 # whole-connection harness sets are kept for reference but not registered as checks (DESIGN.md §5)
 PROPS["C06"]["claimed"] = False
 PROPS["C01"]["claimed"] = False
+
+
+PROPS["C18"] = {
+    "level_text": "Bounded model checking of the real MetaFilterAdapter, PlayerAllow/BlockFilterAdapter, the Vec<T> filter chain, AnyStrategyAdapter and PlayerFillStrategyAdapter against reference evaluators: every pair of rules of the six kinds over two targets with arbitrary (present/absent) metadata; allow/block by name list and id list in every combination; chain = composition; fullest-below-capacity selection with missing/non-numeric counts.",
+    "level_note": "Trusted: Kani/CBMC; erasure R1 (adapter futures are plain calls), R4 (Target.meta is an inline association list). Outside: regex-based options (name patterns, host-name scope of OptionFilterAdapter) - the regex crate is not executable under CBMC, those fields are None; configuration -> adapter construction in the binary crate; strings longer than one byte; more than two targets / rules.",
+    "assumptions": ["one-byte keys/values from a two-letter alphabet", "<= 2 targets, <= 2 rules, <= 1 metadata entry per target"],
+    "explanation": "",
+    "harnesses": [
+        H("verif_c18::proofs::meta_single_rule", pkg="passage-adapters", desc="one metadata rule (6 kinds) = reference predicate", bounds="1 target, 1 rule", timeout_s=1800, mem_gb=20),
+        H("verif_c18::proofs::meta_rules_and_semantics", pkg="passage-adapters", tier="thorough", desc="1-2 metadata rules (6 kinds) = AND of reference predicates, order preserved", bounds="2 targets, 2 rules", timeout_s=3600, mem_gb=40),
+        H("verif_c18::proofs::block_lists", pkg="passage-adapters", desc="blocked iff name list or id list matches", bounds="all list presence combinations, all UUIDs", timeout_s=1800, mem_gb=16),
+        H("verif_c18::proofs::allow_lists", pkg="passage-adapters", desc="allowed iff some list matches", bounds="all list presence combinations", timeout_s=1800, mem_gb=16),
+        H("verif_c18::proofs::chain_is_composition", pkg="passage-adapters", tier="thorough", desc="Vec<filter> = sequential composition", bounds="2 filters", timeout_s=1800, mem_gb=16),
+        H("verif_c18::proofs::strategies", pkg="passage-adapters", tier="thorough", desc="any = first; player fill = fullest strictly below max", bounds="2 targets, counts 0..9 / missing / non-numeric, max 0..10", timeout_s=3600, mem_gb=40),
+    ],
+}
+NOT_APPLICABLE.pop("C18", None)
